@@ -134,7 +134,7 @@ def layout_tensor(vs, rng, dtype):
     if choice == 1:
         return a, 1
     if choice == 2:
-        return np.ascontiguousarray(a.T), 0
+        return np.ascontiguousarray(a.T), rng.choice([0, -2])
     if choice == 3:
         return a.reshape(B, 1, D), 2
     return np.ascontiguousarray(a.T).reshape(D, B, 1), -3
